@@ -38,6 +38,12 @@ CLAIMS = {
         "The heap bound itself is a runtime quantity and is not decided. Decided are necessary structural conditions: every growth of a buffer that outlives the call, in code reachable from a streaming parser entry point, is dominated by a clear() of the same buffer; compaction in request_more is decided on live operands, moves the window to offset 0 and the buffer only grows when window + chunk does not fit. (Allocation sized by declared counts is C05-R5.)",
         "DESIGN.md §4 C10",
     ),
+    "C11": (
+        "other",
+        "who-may-call, guard dominance, post-dominance and linear-use (affine path execution) rules over the writer's MIR",
+        "Decides for every path of the writer's methods: the sink is called from two sites only, only while no error is parked, inside the panicked bracket, its error is parked; every flush clears the buffer and writes the whole buffer; in the cold path each part of the input is buffered or written exactly once in order (split at capacity - len); the error is taken exactly once and Write::flush reports it; drop flushes unless a sink write panicked; the integer fast path advances by the written length. Canonical decimal text (itoap) and std's write_all loop are trusted.",
+        "DESIGN.md §4 C11",
+    ),
     "C14": (
         "other",
         "unsafe-operation inventory over MIR with guard-dominance patterns per class, field confinement, wrap-before-check rule",
